@@ -14,7 +14,7 @@
 (*                patterns; arguments at the edges.                        *)
 (***************************************************************************)
 EXTENDS BVRef, TLC, Json
-CONSTANTS N, Mode, FamilyLens, RLClasses, RLMaxRuns, RLTails
+CONSTANTS N, Mode, FamilyLens, RLClasses, RLMaxRuns, RLTails, SpreadPos, SpreadK
 VARIABLE B
 
 Undefined == -7
@@ -45,6 +45,11 @@ AbsRuns(gl) == FoldLeft(LAMBDA acc, p : LET prevEnd == IF Len(acc) = 0 THEN 0 EL
 RLFamily == {LET r == AbsRuns(gl) e == IF Len(r) = 0 THEN 0 ELSE r[Len(r)][1] + r[Len(r)][2]
              IN [len |-> e + t, runs |-> r] : gl \in RLLists(RLMaxRuns), t \in RLTails}
 
+\* Mode "spread": a few set bits (or a few unset bits) spread over several 64-bit words, so that
+\* word-scanning iterators and queries cross word boundaries; every argument 0..len+1.
+SpreadFamily == UNION {{FromSet(L, S), FromSet(L, (0..(L - 1)) \ S)} :
+                          S \in {T \in SUBSET SpreadPos : Cardinality(T) <= SpreadK}, L \in FamilyLens}
+
 EdgeArgs(b) ==
     LET L == b.len
         k == Len(b.runs)
@@ -62,11 +67,13 @@ Init == \/ /\ Mode = "bits"
            /\ B \in Family
         \/ /\ Mode = "rl"
            /\ B \in RLFamily
+        \/ /\ Mode = "spread"
+           /\ B \in SpreadFamily
 Next == UNCHANGED B
 Spec == Init /\ [][Next]_B
 
 Case ==
-    LET args == IF Mode = "bits" THEN AllArgs(B.len) ELSE EdgeArgs(B)
+    LET args == IF Mode \in {"bits", "spread"} THEN AllArgs(B.len) ELSE EdgeArgs(B)
         m == Len(args)
         InLen(a) == a >= 0 /\ a < B.len
     IN [k |-> "bv", len |-> B.len, runs |-> B.runs, args |-> args,
